@@ -1,4 +1,5 @@
 -- DRIVER: dyn Pms.Dyn.handleDyn
+-- DRIVER: sq4 Pms.Dyn.handleSq4
 import Pms.Model.Dyn
 import Pms.Model.PbcDriver
 import Pms.Model.Io
@@ -140,6 +141,55 @@ def handleDyn (toks : List String) : Option String := do
       | "spec", "log" => some ((List.range (X.T - 1)).map fun k => Spec.logRow ratRint ratCos X (k + 1))
       | _, _ => none)
     pure (showRat mc ++ " " ++ showRat mt ++ " " ++ (if deg then "1" else "0") ++ " " ++ " ".intercalate (rows.map showRow))
+  | _ => none
+
+/-- distinct keys ascending with their member indices -/
+def shells (nq : Nat) (key : Nat → Rat) : List (Rat × List Nat) :=
+  let ks := ((List.range nq).map key).foldl (fun acc k => if acc.contains k then acc else k :: acc) []
+  let sorted := (ks.toArray.qsort (fun a b => a < b)).toList
+  sorted.map fun k => (k, (List.range nq).filter fun j => key j == k)
+
+/-- `sq4 <impl|spec> <trajectory> t nq qv[nq*d] L[d] twopidl[d] spos[T*N*d]`
+ → `marginCut marginTie degenerate marginLag lag nshells (key qscale Sq)*`;
+ key = Σ_k (n_k / L_k)² = (|q| / 2π)² exactly -/
+def handleSq4 (toks : List String) : Option String := do
+  match toks with
+  | mode :: rest =>
+    let ⟨X, rest⟩ ← parseTraj rest
+    let (tl, rest) ← takeMap parseRat 1 rest
+    let (nql, rest) ← takeMap parseNatDigits 1 rest
+    let nq := nql.headD 0
+    let d := X.d
+    let (qs, rest) ← takeMap parseInt (nq*d) rest
+    let (Ls, rest) ← takeMap parseRat d rest
+    let (tp, rest) ← takeMap parseRat d rest
+    let (sp, rest) ← takeMap parseRat (X.T*X.N*d) rest
+    if !rest.isEmpty then none
+    let qa := qs.toArray
+    let spa := sp.toArray
+    let La := Ls.toArray
+    let Q : Sq4In Rat := {
+      qv := fun j k => qa.getD (j*d + k) 0
+      twopidl := arrFn tp
+      spos := fun f i k => spa.getD (f*X.N*d + i*d + k) 0 }
+    let t := tl.headD 0
+    let lag := Impl.sq4Lag ratRint X t
+    let mlag := Pbc.tieMargin (t / time X 0)
+    let (mc, mt, deg0) := margins X
+    let key : Nat → Rat := fun j => sumRange d fun k => ((Q.qv j k : Int) : Rat) / La.getD k 1 * (((Q.qv j k : Int) : Rat) / La.getD k 1)
+    let mut deg := deg0 || decide (lag ≥ X.T) || decide (t / time X 0 < 0)
+    for o in List.range (X.T - lag) do
+      let m := Spec.mobileMask ratRint X o (o + lag)
+      if ((List.range X.N).filter m).isEmpty then deg := true
+    let sh := shells nq key
+    let vals : List String ← (match mode with
+      | "impl" => some (sh.map fun (k, mem) =>
+          showRat k ++ " " ++ showRat (Impl.sq4QScale (α := Rat) X.T lag) ++ " " ++ showRat (Impl.sq4Shell ratRint ratCos ratSin X Q lag mem))
+      | "spec" => some (sh.map fun (k, mem) =>
+          showRat k ++ " 1 " ++ showRat (Spec.sq4Shell ratRint ratCos ratSin X Q lag mem))
+      | _ => none)
+    pure (showRat mc ++ " " ++ showRat mt ++ " " ++ (if deg then "1" else "0") ++ " " ++ showRat mlag ++ " "
+      ++ toString lag ++ " " ++ toString sh.length ++ " " ++ " ".intercalate vals)
   | _ => none
 
 end Pms.Dyn
